@@ -265,8 +265,9 @@ func (ex *Exec) selectStep(st *State, in *ssa.Select) bool {
 	if nposs <= 1 {
 		copy(chosen, ready)
 	} else {
-		ex.nSel++
-		c := ex.tb.Var(fmt.Sprintf("sel!%d", ex.nSel), SInt, big0, bigInt(int64(n-1)))
+		ex.position(st)
+		ex.selCount[st.key]++
+		c := ex.freshInt(fmt.Sprintf("sel!%s!%d", st.key, ex.selCount[st.key]), big0, bigInt(int64(n-1)))
 		for i := 0; i < n; i++ {
 			ch := tb.False
 			for c0 := 0; c0 < n; c0++ {
